@@ -483,6 +483,25 @@ def check_knot(case):
                         fails.append({"site": f"Mesh1D[{basis}].eval_basis raises or has wrong shape", "msg": repr(ex), "data": dict(info, xi=x, el=el_arg)})
                         continue
                     ncmp += _cmp(f"Mesh1D[{basis}].eval_basis", got, REF[(x, e_ref)], 1, fails, stats, dict(info, xi=x, el=el_arg, element=e_ref))
+            # vector calls: several parameters at once, elements looked up per parameter (el=None), given per parameter,
+            # and one explicit element broadcast over parameters of that element (seeded C13-i)
+            xv = [x for x in xs if els[x] is not None]
+            for how in ("None", "list"):
+                try:
+                    NV = np.asarray(m.lagrange_basis1D(np.array(xv), None if how == "None" else [els[x] for x in xv], squeeze=False), float)
+                    assert NV.shape == (2, len(xv), p + 1), NV.shape
+                    for i, x in enumerate(xv):
+                        ncmp += _cmp(f"Mesh1D[{basis}].lagrange_basis1D (vector of parameters, els={how})", NV[:, i, :], REF[(x, els[x])], 1, fails, stats,
+                                     dict(info, xi=x, element=els[x], n_parameters=len(xv)))
+                except Exception as ex:  # noqa
+                    fails.append({"site": f"Mesh1D[{basis}].lagrange_basis1D (vector of parameters) raises or has wrong shape", "msg": repr(ex), "data": dict(info, els=how)})
+            try:
+                NV = np.asarray(m.eval_basis(tuple(xv)), float).reshape(2, len(xv), p + 1)
+                for i, x in enumerate(xv):
+                    ncmp += _cmp(f"Mesh1D[{basis}].eval_basis (tuple of parameters)", NV[:, i, :], REF[(x, els[x])], 1, fails, stats,
+                                 dict(info, xi=x, element=els[x], n_parameters=len(xv)))
+            except Exception as ex:  # noqa
+                fails.append({"site": f"Mesh1D[{basis}].eval_basis (tuple of parameters) raises or has wrong shape", "msg": repr(ex), "data": dict(info)})
             # global Kronecker property: basis function of global node j at node i (through element lookup + elDOF)
             try:
                 msgk = _global_kronecker(m, kv, basis, p, nel, bounds)
